@@ -254,6 +254,7 @@ def install_clock(clock, poll_div: float) -> dict:
 
 
 # ----------------------------------------------------------------------------- schedule perturbation
+_LOCK_RE = re.compile(r"^\s*with\s+\S*(lock|mutex)\w*\s*:|\.acquire\(", re.I)
 _SYNC_RE = re.compile(r"\.(set|clear|notify|notify_all|release|put|put_nowait|submit|start|set_result|set_exception)\(")
 
 
@@ -278,6 +279,12 @@ class Perturb:
         self.slow_re = re.compile(self.slow["re"]) if self.slow else None
         self.slow_cache: dict[int, bool] = {}
         self.after_sync = spec.get("after_sync")
+        # {"thread_re": name regex, "sleep": s, "p": ..}: matching threads lose the CPU right BEFORE a statement that takes a lock
+        # (`with ...lock:` / `.acquire(`): the other classic pre-emption point, between two critical sections of one call
+        self.before_lock = spec.get("before_lock")
+        self.before_re = re.compile(self.before_lock["thread_re"]) if self.before_lock and self.before_lock.get("thread_re") else None
+        self.before_cache: dict[int, bool] = {}
+        self.lock_lines: dict[tuple, bool] = {}
         self.after: dict[int, bool] = {}
         self.sync_lines: dict[tuple, bool] = {}
         self.sync_hits = 0
@@ -308,6 +315,20 @@ class Perturb:
                     self.hits += 1
                     _time.sleep(self.slow.get("sleep", 0.001))
                     return None
+            if self.before_lock:
+                tid = threading.get_ident()
+                mine = self.before_cache.get(tid)
+                if mine is None:
+                    mine = self.before_cache[tid] = (self.before_re is None or bool(self.before_re.search(threading.current_thread().name)))
+                if mine:
+                    key = (fn, line)
+                    is_lock = self.lock_lines.get(key)
+                    if is_lock is None:
+                        is_lock = self.lock_lines[key] = bool(_LOCK_RE.search(linecache.getline(fn, line)))
+                    if is_lock and r3 < self.before_lock.get("p", 1.0):
+                        self.hits += 1
+                        _time.sleep(self.before_lock.get("sleep", 0.01))
+                        return None
             if self.after_sync:
                 tid = threading.get_ident()
                 was = self.after.pop(tid, False)
